@@ -1,6 +1,7 @@
 package main
 
 import (
+	"context"
 	"runtime"
 	"runtime/debug"
 	"time"
@@ -38,6 +39,33 @@ func execHeap(in val.V) val.V {
 		finManual, _ := sse.NewFiniteReplayer(4, false)
 		vrManual, _ := sse.NewValidReplayer(1000*time.Second, false)
 		vrManual.Now = now
+		// op 10: Joes with replayers of their own (their IDs are nobody's business here), nobody subscribed
+		joes := map[uint64]*sse.Joe{}
+		defer func() {
+			for _, j := range joes {
+				ctx, cancel := context.WithTimeout(context.Background(), time.Second)
+				_ = j.Shutdown(ctx)
+				cancel()
+			}
+		}()
+		joeOf := func(kind uint64) *sse.Joe {
+			if j, ok := joes[kind]; ok {
+				return j
+			}
+			var rep sse.Replayer
+			switch kind {
+			case 0:
+				rep, _ = sse.NewFiniteReplayer(2, true)
+			case 1:
+				rep, _ = sse.NewValidReplayer(1000*time.Second, true)
+			case 2:
+				rep, _ = sse.NewFiniteReplayer(4, false)
+			default:
+				rep, _ = sse.NewValidReplayer(1000*time.Second, false)
+			}
+			joes[kind] = &sse.Joe{Replayer: rep}
+			return joes[kind]
+		}
 		outs := []val.V{}
 		for _, op := range in.Items() {
 			t := op.At(1).Int()
@@ -56,6 +84,8 @@ func execHeap(in val.V) val.V {
 					} else {
 						m.AppendData(op.At(3).Str())
 					}
+				case 10:
+					_ = joeOf(op.At(2).Num()).Publish(m, []string{"t"})
 				case 1:
 					if op.At(2).Present() {
 						m.ID = sse.ID(op.At(2).At(0).Str())
@@ -266,6 +296,22 @@ func genHeap(c *Ctx) {
 			}
 		}
 	}
+	// exhaustive: Publish through a Joe with each kind of replayer, of a message whose ID is unset / set and empty / set,
+	// twice (the first may be refused, the second must meet the same message)
+	for idk := 0; idk < 3; idk++ {
+		for kind := 0; kind < 4; kind++ {
+			ops := []val.V{app(0, 0)}
+			switch idk {
+			case 1:
+				ops = append(ops, val.L(val.N(1), val.N(0), val.L(val.S(""))))
+			case 2:
+				ops = append(ops, val.L(val.N(1), val.N(0), val.L(val.S("x"))))
+			}
+			ops = append(ops, val.L(val.N(3), val.N(0), val.Z(2_000_000)), val.L(val.N(10), val.N(0), val.Int(kind)), val.L(val.N(10), val.N(0), val.Int(kind)), app(0, 1))
+			c.Count("exhaustive-publish-through-joe")
+			c.Emit(withHints(ops))
+		}
+	}
 	// exhaustive: Put through all four replayers of a message whose ID is unset / set and empty / set
 	for idk := 0; idk < 3; idk++ {
 		for kind := 0; kind < 4; kind++ {
@@ -378,10 +424,13 @@ func genHeap(c *Ctx) {
 				ops = append(ops, val.L(val.N(8), val.Int(t), val.S("ty"), val.Opt(line(c.R.Intn(26)), c.R.Bool()), val.N(0)))
 				hasID[t] = false
 				c.Count("op:unmarshal-typed")
-			case x < 92:
+			case x < 90:
 				if size < 12 {
 					put(t, c.R.Intn(4))
 				}
+			case x < 92:
+				ops = append(ops, val.L(val.N(10), val.Int(t), val.Int(c.R.Intn(4))))
+				c.Count("op:publish-through-joe")
 			case x < 95:
 				// a burst of publications through one replayer: any members, those that carry an ID (earlier publications
 				// among them) included, so accepted and rejected Puts alternate
